@@ -32,6 +32,13 @@ GROUPS = [
 ]
 
 
+# refusal lemma: unbounded in the list length (refusal paths are loop-free, element pointers are poison)
+GROUPS.append(dict(name='list_refusal', harness='qlist/refusal.c', entry='h_list_refusal', mode='unwind', unwind=2, fp=True, props=['C09', 'C11', 'C14'],
+                   functions=['qlist_getat', 'qlist_popat', 'qlist_removeat', 'qlist_addat', 'get_at', 'get_obj', 'qlist_lock', 'qlist_unlock'],
+                   units=['src/containers/qlist.c'], strength='proof', timeout=300, replay=False,
+                   bound='none on the list length (num symbolic up to INT_MAX, every int index); covers the refusal paths only'))
+
+
 def c13(groups):
     """C13 overlay on the operations the property names (insert, copying get / pop / remove, flatten), lists of 0..2 elements"""
     out = []
